@@ -36,3 +36,24 @@ Theorem C04_roundtrip_refuted_pinned :
     time_of_time64_pinned (time64_of_time t) tref = t + 4294967296 * 1000000000.
 Proof. exact roundtrip_refuted_pinned. Qed.
 Print Assumptions C04_roundtrip_refuted_pinned.
+
+(* The property's window read literally (nanosecond granularity, -2^31 s <= t - tref < 2^31 s):
+   the round trip holds everywhere in it except in the one-second band at the upper edge where
+   the whole seconds differ by exactly 2^31 (and t's sub-second part is smaller than the
+   reference's) ... *)
+Theorem C04_roundtrip_ns_window : forall t tref,
+  0 <= time_sec tref < 2^60 -> in_window_ns t tref -> time_sec t - time_sec tref <> 2147483648 ->
+  t - 1 <= time_of_time64 (time64_of_time t) tref <= t.
+Proof. exact roundtrip_ns. Qed.
+Print Assumptions C04_roundtrip_ns_window.
+
+(* ... and in that band the code, which compares whole seconds, unfolds into the previous era:
+   reference 2023-11-14T22:13:20.999999999Z, time 2^31 s later at .000000000 (t - tref =
+   2^31 s - 999999999 ns, inside the window) comes back 2^32 s early.  Recorded finding
+   (KNOWN_FINDINGS.txt, case kind ntp.edge). *)
+Theorem C04_roundtrip_ns_window_refuted :
+  let tref := mk_time 1700000000 999999999 in
+  let t := mk_time (1700000000 + 2147483648) 0 in
+  in_window_ns t tref /\ time_of_time64 (time64_of_time t) tref = t - 4294967296 * 1000000000.
+Proof. cbv zeta. split; [unfold in_window_ns, mk_time, nanos_per_sec; lia|vm_compute; reflexivity]. Qed.
+Print Assumptions C04_roundtrip_ns_window_refuted.
